@@ -421,8 +421,12 @@ def normalize_url(
         fragment = safely_quote(fragment)
 
     # Result
+    # NOTE: userinfo is case-sensitive, only the hostname is lowercased
+    if hostname:
+        hostname = hostname.lower()
+
     netloc = unsplit_netloc(user, password, hostname, port)
-    result = SplitResult(scheme, netloc.lower(), path, query, fragment)
+    result = SplitResult(scheme, netloc, path, query, fragment)
 
     if not unsplit:
         return result
